@@ -24,9 +24,41 @@ import (
 type Row struct {
 	A int64  `db:"a"`
 	B string `db:"b"`
+	// L is scanned by a Scanner that reuses the memory its receiver already holds (as
+	// json.Unmarshal into a slice does): rows decoded into a fresh struct each never share it.
+	L StrList `db:"l"`
 	// Extra has no db tag: no statement ever writes it.  An element GetAll appends must
 	// carry its zero value, whatever the spare capacity of the caller's slice held.
 	Extra int
+}
+
+// StrList keeps the single string of its column, written into the backing array it has.
+type StrList []string
+
+func (l *StrList) Scan(v any) error {
+	var s string
+	switch x := v.(type) {
+	case string:
+		s = x
+	case []byte:
+		s = string(x)
+	case nil:
+		*l = (*l)[:0]
+		return nil
+	default:
+		return fmt.Errorf("StrList: cannot scan %T", v)
+	}
+	*l = append((*l)[:0], s)
+	return nil
+}
+
+var rowCols = []string{"_sqlair_0", "_sqlair_1", "_sqlair_2"}
+
+// faithful reports whether an appended element is the freshly decoded row number id.
+func isPrior(r Row) bool { return r.A == 100 && r.B == "prior" && r.Extra == 0 && len(r.L) == 0 }
+
+func faithful(r Row, id int64) bool {
+	return r.Extra == 0 && r.B == fmt.Sprintf("r%d", id) && len(r.L) == 1 && r.L[0] == fmt.Sprintf("l%d", id)
 }
 
 // Unrelated is a destination the statements do not use.
@@ -107,7 +139,7 @@ func genL4Pair(r *rng.R) *l4Case {
 var pairBlocked bool
 
 func runL4Pair(c *l4Case) (obs *l4Obs) {
-	obs = &l4Obs{Returns: []string{}, Events: []string{}, EventCtx: []string{}, EventConn: []int{}, Appended: []int64{}, Finish: []string{}}
+	obs = &l4Obs{Returns: []string{}, Events: []string{}, EventCtx: []string{}, EventConn: []int{}, Appended: []int64{}, Finish: []string{}, RowsFaithful: true}
 	sqldb, st := fakedrv.Open()
 	sqldb.SetMaxOpenConns(4)
 	defer sqldb.Close()
@@ -124,10 +156,10 @@ func runL4Pair(c *l4Case) (obs *l4Obs) {
 		return obs
 	}
 	gate := fakedrv.NewGate()
-	sc := fakedrv.Script{Columns: []string{"_sqlair_0", "_sqlair_1"}, RowsAffected: 7,
+	sc := fakedrv.Script{Columns: rowCols, RowsAffected: 7,
 		Faults: []fakedrv.Fault{{Kind: "prepare", N: 0, Gate: gate}}}
 	for i := 0; i < c.NRows; i++ {
-		sc.Rows = append(sc.Rows, []driver.Value{int64(i + 1), fmt.Sprintf("r%d", i+1)})
+		sc.Rows = append(sc.Rows, []driver.Value{int64(i + 1), fmt.Sprintf("r%d", i+1), fmt.Sprintf("l%d", i+1)})
 	}
 	st.SetScript(sc)
 	st.Reset()
@@ -354,6 +386,7 @@ type l4Obs struct {
 	Finish    []string        `json:"finish"`
 	Winners   int             `json:"winners"`
 	PreReturn string          `json:"preReturn"`
+	RowsFaithful bool         `json:"rowsFaithful"`
 	BeginConn int             `json:"beginConn"`
 	Panic     string          `json:"panic,omitempty"`
 	Extra     map[string]any  `json:"extra,omitempty"`
@@ -366,7 +399,7 @@ func waitFor(cond func() bool) {
 }
 
 func runL4Case(c *l4Case) (obs *l4Obs) {
-	obs = &l4Obs{Returns: []string{}, Events: []string{}, EventCtx: []string{}, EventConn: []int{}, Appended: []int64{}, Finish: []string{}}
+	obs = &l4Obs{Returns: []string{}, Events: []string{}, EventCtx: []string{}, EventConn: []int{}, Appended: []int64{}, Finish: []string{}, RowsFaithful: true}
 	defer func() {
 		if p := recover(); p != nil {
 			obs.Panic = fmt.Sprint(p)
@@ -398,17 +431,17 @@ func runL4Case(c *l4Case) (obs *l4Obs) {
 	cached := strings.HasSuffix(c.Path, "cached")
 	onTx := strings.HasPrefix(c.Path, "tx")
 	if cached {
-		st.SetScript(fakedrv.Script{Columns: []string{"_sqlair_0", "_sqlair_1"}})
+		st.SetScript(fakedrv.Script{Columns: rowCols})
 		db.Query(context.Background(), stmt, c.idsBefore()).Run()
 	}
 	// the script of the operation proper
-	sc := fakedrv.Script{Columns: []string{"_sqlair_0", "_sqlair_1"}, RowsAffected: 7}
+	sc := fakedrv.Script{Columns: rowCols, RowsAffected: 7}
 	for i := 0; i < c.NRows; i++ {
 		var a driver.Value = int64(i + 1)
 		if i == c.BadRow {
 			a = "abc"
 		}
-		sc.Rows = append(sc.Rows, []driver.Value{a, fmt.Sprintf("r%d", i+1)})
+		sc.Rows = append(sc.Rows, []driver.Value{a, fmt.Sprintf("r%d", i+1), fmt.Sprintf("l%d", i+1)})
 	}
 	if c.FewCols {
 		sc.Columns = sc.Columns[:1]
@@ -500,7 +533,7 @@ func runL4Case(c *l4Case) (obs *l4Obs) {
 	}
 	if c.PreCtx != "" {
 		// preliminary run with a clean script; its events are not part of the case's log
-		st.SetScript(fakedrv.Script{Columns: []string{"_sqlair_0", "_sqlair_1"}})
+		st.SetScript(fakedrv.Script{Columns: rowCols})
 		pctx, pcancel := context.WithCancel(context.Background())
 		if c.PreCtx == "cancelled" {
 			pcancel()
@@ -605,23 +638,26 @@ func runL4Case(c *l4Case) (obs *l4Obs) {
 		}
 		obs.Returns = append(obs.Returns, errText(qr.GetAll(args...)))
 		if c.Dests == "validptr" {
-			obs.Prior = len(prows) >= 1 && prows[0] != nil && *prows[0] == Row{A: 100, B: "prior"}
+			obs.Prior = len(prows) >= 1 && prows[0] != nil && isPrior(*prows[0])
 			for _, r := range prows[1:] {
 				if r == nil {
 					obs.Appended = append(obs.Appended, -1)
 				} else {
 					obs.Appended = append(obs.Appended, r.A)
+					if !faithful(*r, r.A) {
+						obs.RowsFaithful = false
+					}
 				}
 			}
 		} else {
-			obs.Prior = len(rows) >= 1 && rows[0] == Row{A: 100, B: "prior"}
+			obs.Prior = len(rows) >= 1 && isPrior(rows[0])
 			for _, r := range rows[1:] {
-				if r.Extra != 0 {
-					// not a freshly decoded row: something of the old backing array shows
-					obs.Appended = append(obs.Appended, -2)
-					continue
-				}
 				obs.Appended = append(obs.Appended, r.A)
+				if !faithful(r, r.A) {
+					// not a freshly decoded row: something of the old backing array, or of
+					// another row, shows
+					obs.RowsFaithful = false
+				}
 			}
 		}
 	case "iter":
@@ -704,7 +740,7 @@ func runL4Case(c *l4Case) (obs *l4Obs) {
 	return obs
 }
 
-var l4Props = []string{"C09", "C12", "C13", "C14", "C15", "C20"}
+var l4Props = []string{"C06", "C09", "C12", "C13", "C14", "C15", "C20"}
 
 func runL4(args []string) {
 	fs := flag.NewFlagSet("l4", flag.ExitOnError)
